@@ -139,10 +139,22 @@ func opE2E(c Case, r Result) {
 	}
 	if ts, ok := c["texts_hex"]; ok {
 		outs := []string{}
+		percmd := [][]string{}
+		wantPer, _ := c["percmd"].(bool)
 		for _, t := range ts.([]any) {
 			b, _ := hex.DecodeString(t.(string))
 			outs = append(outs, matchesSexp(engine.Run(cp.bc, string(b))))
 			r["matches_list"] = outs // kept up to date so that a panic leaves the results so far
+			if wantPer {
+				// every command alone (with the bytecode the whole source compiled to)
+				per := []string{}
+				for _, cmd := range cp.bc.Bytecode {
+					one := &bytecode.Bytecode{Bytecode: []bytecode.Command{cmd}}
+					per = append(per, matchesSexp(engine.Run(one, string(b))))
+				}
+				percmd = append(percmd, per)
+				r["percmd_list"] = percmd
+			}
 		}
 		r["matches_list"] = outs
 		return
